@@ -15,7 +15,7 @@ func init() {
 		ID:   "C11",
 		Rule: "payloader: one execution = one payloader instance driven through 32768+130 frames (every picture id, the 127/128 form switch and the wrap) for one (MTU, picture ids on/off, frame-length cycle offset), each frame is one case; decoder: one execution = one descriptor (all 256 first octets x all 256 extension octets x field values) with every truncation as a case; non-trivial = frame needs more than one packet / descriptor has the extension octet",
 		Assumptions: []string{
-			"payloader MTUs {5,6,8,10,100,1200} with picture ids and {2,3,4,10,100,1200} without; frame lengths cycle through {1,2,3,k*(MTU-h)+{-1,0,1} for k=1,2,3} (h = descriptor size in use) with every cycle offset, so that every picture id meets every length class",
+			"payloader MTUs {5,6,8,10,100,1200} with picture ids and {2,3,4,10,100,1200} without (thorough: every MTU up to 40 and {63..65,127..129,255..257,1200,65535}); frame lengths cycle through {1,2,3,k*(MTU-h)+{-1,0,1} for k=1,2,3} (h = descriptor size in use) with every cycle offset, so that every picture id meets every length class",
 			"for odd cycle offsets an unrelated second payloader is used every third frame; for offsets 2,3 mod 4 every fifth frame is preceded by a call with nil / empty input, which sends nothing and is read as not being a frame (the ids of the frames around it stay consecutive; the first frame sent carries 0)",
 			"long frames: 257, 65537 and 70000 packets per frame (one-byte fragment budget at the smallest MTU of each picture-id form, and MTU 1200 with frames of 300 000 bytes) at picture ids {0,127,128,0x7FFF}",
 			"decoder field alphabets in the flag product: 7-bit ids {0,127,0x55}, 15-bit ids {0,0x7FFF,0x1234}, TL0PICIDX {0,255}, TID/Y/KEYIDX octet {00,FF,A5}, 0/1/3 payload bytes; complete sub-domains one field at a time: all 128 + 32768 picture ids, all 256 TL0PICIDX, all 256 TID/Y/KEYIDX octets x T x K",
@@ -35,6 +35,17 @@ func c11Payloader(c *mc.Ctx) {
 	mtus := []int{2, 3, 4, 10, 100, 1200}
 	if ids {
 		mtus = []int{5, 6, 8, 10, 100, 1200}
+	}
+	if c.Thorough() {
+		// every MTU from the smallest that carries a byte up to 40, and the 8/16-bit boundaries
+		mtus = []int{63, 64, 65, 127, 128, 129, 255, 256, 257, 1200, 65535}
+		lo := 2
+		if ids {
+			lo = 5
+		}
+		for m := lo; m <= 40; m++ {
+			mtus = append(mtus, m)
+		}
 	}
 	mtu := mc.From(c, mtus)
 	offset := c.Pick(12)
